@@ -245,6 +245,11 @@ def _cat():
     # same structures with the two-site Wyckoff set listed first (site index != Wyckoff index)
     cat["omegaB"] = {"lattice": hexc(ca), "basis": [[[1. / 3, 2. / 3, 0.5], [2. / 3, 1. / 3, 0.5], [0., 0., 0.]]]}
     cat["romegaB"] = {"lattice": hexc(ca), "basis": [[[1. / 3, 2. / 3, 0.55], [2. / 3, 1. / 3, 0.45], [0., 0., 0.]]]}
+    # two Wyckoff sets on the mobile sublattice, every site an inversion centre (no origin states)
+    cat["tet2w"] = {"lattice": np.diag([1., 1., 1.25]).tolist(), "basis": [[[0., 0., 0.], [0.5, 0.5, 0.]], [[0., 0., 0.5]]]}
+    cat["sq2w"] = {"lattice": np.eye(2).tolist(), "basis": [[[0., 0.], [0.5, 0.5]], [[0.25, 0.], [0.75, 0.]]]}
+    cat["sq3"] = {"lattice": np.eye(2).tolist(), "basis": [[[0., 0.], [0.5, 0.], [0., 0.5]]]}
+    cat["sq3B"] = {"lattice": np.eye(2).tolist(), "basis": [[[0.5, 0.], [0., 0.5], [0., 0.]]]}
     cat["square"] = {"lattice": np.eye(2).tolist(), "basis": [[[0., 0.]]]}
     cat["tria"] = {"lattice": [[0.5, 0.5], [-S3 / 2, S3 / 2]], "basis": [[[0., 0.]]]}
     cat["honeycomb"] = {"lattice": [[0.5, 0.5], [-S3 / 2, S3 / 2]], "basis": [[[2. / 3, 1. / 3], [1. / 3, 2. / 3]]]}
